@@ -22,7 +22,7 @@ rm -f $wt/$pkg/zz_seed_demo_test.go
 echo "demo with change   : $demo_with"
 echo "demo without change: $demo_without"
 echo "existing tests     : $existing"
-cd /repo && git apply $out/patch.diff || { echo "PATCH DOES NOT APPLY in /repo"; exit 1; }
+cd /repo && [ -z "$(git status --porcelain --untracked-files=no)" ] || { echo "/repo has uncommitted changes: commit them first"; exit 1; }; git apply $out/patch.diff || { echo "PATCH DOES NOT APPLY in /repo"; exit 1; }
 res=""
 for p in "$@"; do
   o=$(cd /verif && VERIF_EVIDENCE_DIR=/tmp/verif-seed-evidence ./check $p quick 2>&1)
